@@ -953,3 +953,37 @@ pub(crate) fn struct_lit_formatting<'a>(
         config: context.config,
     }
 }
+
+#[cfg(feature = "verif-hooks")]
+pub(crate) mod verif_local_wl {
+    use super::*;
+
+    /// The fields of a `ListFormatting` apart from `config`:
+    /// (tactic, separator, trailing_separator, separator_place, shape, ends_with_newline,
+    /// preserve_newline, nested, align_comments).
+    pub(crate) fn formatting_fields(
+        f: &ListFormatting<'_>,
+    ) -> (
+        DefinitiveListTactic,
+        String,
+        SeparatorTactic,
+        SeparatorPlace,
+        Shape,
+        bool,
+        bool,
+        bool,
+        bool,
+    ) {
+        (
+            f.tactic,
+            f.separator.to_owned(),
+            f.trailing_separator,
+            f.separator_place,
+            f.shape,
+            f.ends_with_newline,
+            f.preserve_newline,
+            f.nested,
+            f.align_comments,
+        )
+    }
+}
